@@ -14,6 +14,7 @@ VIOLATION_CLASS = {
     7: ("no-error", "a response without certificate must be an error"),
     8: ("extra-names", "the authenticated user's name is the only identity in the certificate (c02_no_other_names): no further principal, critical option, subject attribute or subject-alternative-name entry"),
     9: ("unverified-account", "a certificate is issued only if the password backend accepts the password for the account the typed name stands for (c02_user_is_normalised)"),
+    11: ("not-an-automation-user", "an IP-restricted certificate is an identity only if its common name is byte for byte a configured automation user (c02_identity_is_account)"),
     10: ("session-subject", "the session a login mints is for the account the typed name stands for (c02_identity_is_account)"),
 }
 
@@ -56,7 +57,7 @@ def run(ctx):
         harness=("TestVerif_C02", ["kmd/common.go", "kmd/creds.go", "kmd/consts.go", "kmd/c01.go", "kmd/c02.go", "kmd/c02ident.go"]),
         cases=("CasesC02.v", [("c02_mismatches", "every decoded certificate (names, key id, key, type, CA flag, usages, extension map, verifying CA, organisations, groups, service methods, PKINIT name) and every refusal = model certgen on the same request"),
                               ("c02_login_mismatches", "session subject minted by /api/v0/login = model normalise of the submitted name"),
-                              ("c02_ident_mismatches", "credential kind (login by form / by Basic header, Basic header on the request, client certificate) x name spelling (case variants, mail domains, blanks, line feed) x URL segment (as typed / as the account): certificate or refusal, the account the password backend was asked about, the session subject = model ident_certgen / cred_path on the typed name", "CasesC02ident.idx"),
+                              ("c02_ident_mismatches", "credential kind (login by form / by Basic header, Basic header on the request, client certificate, IP-restricted automation certificate) x name spelling (case variants, mail domains, blanks, line feed) x URL segment (as typed / as the account): certificate or refusal, the account the password backend was asked about, the session subject = model ident_certgen / cred_path on the typed name", "CasesC02ident.idx"),
                               ("c02_okta_filter_mismatches", "the model's Okta user-name filter = the compiled default expression on every typed name of the family", None)], "CasesC02.idx"),
         trusted=["x/crypto/ssh and crypto/x509 encode and decode the certificates (the model's certificate is the abstract certdesc); signatures are checked by the real verifiers against the CA material fetched from /public/sshca and /public/x509ca of the same state",
                  "mvdan.cc/sh shell.Expand is an oracle of the model; the harness calls it on every template string for every user and ships the results (including which templates it rejects for which user)",
